@@ -671,6 +671,10 @@ func (g *Gen) txFaults(w *World, ts *TxSpec) {
 		ts.SeqDelta = pick(g.R, []int{-1, 1, 2})
 	case 2, 3, 4:
 		ts.Gas = pick(g.R, []uint64{0, 1000, 20000, 40000, 55000, 65000, 75000, 90000, 110000, 140000})
+		if len(ts.Msgs) > 1 || len(ts.Msgs) == 1 && len(ts.Msgs[0].Inner) > 0 {
+			// several messages / wrapped messages: reach the later ones too
+			ts.Gas = pick(g.R, []uint64{60000, 80000, 100000, 120000, 140000, 160000, 180000, 200000, 230000, 260000, 300000, 350000}) + uint64(g.R.Intn(9000))
+		}
 		w.Fault("gas.starve")
 	case 5:
 		ts.Replay = true
